@@ -122,6 +122,18 @@ def _run_shard(cases):
                 obs = V.alpha(val)
                 ok = V.matches(exp, obs)
             res.append((c['id'], route, formula, ok, obs))
+            if route == 'cell' and st != 'raise' and set(inputs) <= {'A1', 'B1'} and \
+                    formula in ('=A1%sB1' % op, '=A1%', '=%sA1' % BIN_TXT.get(op, op)):
+                # XlOps!OperandsKept: the operator leaves its operands as they were
+                try:
+                    ch = impl.operands_kept(formula, inp)
+                except BaseException as ex:  # noqa
+                    if isinstance(ex, (KeyboardInterrupt, SystemExit)):
+                        raise
+                    ch = []
+                if ch:
+                    res.append((c['id'], 'kept', formula, False,
+                                {'k': 'changed', 'repr': '; '.join('%s: %s -> %s' % x for x in ch)}))
     return res
 
 
@@ -165,6 +177,12 @@ def main():
                 rep.violation({'op': '&', 'cat': 'display-of-1e+-200'},
                               {'formula': formula, 'observed': obs,
                                'expected': V.show(c['exp'])})
+            elif not ok and route == 'kept':
+                rep.violation({'kind': 'operand-changed', 'op': c['op'], 'a': V.show(c['a']),
+                               'b': V.show(c['b']) if c['b'] else ''},
+                              {'route': 'kept', 'formula': formula, 'changed': obs['repr'],
+                               'how': "Parser().ast(formula)[1].compile() called on Ranges holding the "
+                                      "operands; the Ranges are read again afterwards (XlOps!OperandsKept)"})
             elif not ok:
                 sig = {'op': c['op'], 'a': V.show(c['a']),
                        'b': V.show(c['b']) if c['b'] else '',
